@@ -1582,8 +1582,11 @@ func (l *lexer) linebreak() bool {
 			hash = false
 			l.comment()
 			l.mark(0)
-			if l.heredoc.exists() && !l.readHeredocs() {
-				return false
+			if l.heredoc.exists() {
+				if !l.readHeredocs() {
+					return false
+				}
+				l.mark(0)
 			}
 		case '#':
 			// comment
